@@ -72,7 +72,8 @@ def api_consistency_table(ctx, rule, deep=False):
         m = meta[kind]
         for s in sels:
             plan = [('select', None, ns), ('iselect', None, ns), ('select_one', None, ns), ('select', None, ns + (('limit', 2),)), ('filter', m['body'], ns),
-                    ('filter', m['some'], ns), ('select', m['d1'], ns)] + [('closest', c, ns) for c in m['closest']] + [('match', e, ns) for e in m['els']]
+                    ('filter', m['some'], ns), ('select', m['d1'], ns)] + [('closest', c, ns) for c in m['closest']] + [('filter', ('iter', tuple(m['some'])), ns)] \
+                + [('match', e, ns) for e in m['els']]
             for j, (fn, tgt, kw) in enumerate(plan):
                 reqs.append((kind, fn, s, tgt, kw))
                 keys.append((kind, s, j))
@@ -83,9 +84,9 @@ def api_consistency_table(ctx, rule, deep=False):
         order = m['order']
         show = lambda ixs: [label(order[i]) if isinstance(i, int) and i >= 0 else ('document' if i == -1 else i) for i in ixs]     # noqa: E731
         for s in sels:
-            r = [res[(kind, s, j)] for j in range(9 + len(m['els']))]
-            sel, isel, one, lim, fbody, fsome, inner, c1, c2 = r[:9]
-            verdict = dict(zip(m['els'], r[9:]))
+            r = [res[(kind, s, j)] for j in range(10 + len(m['els']))]
+            sel, isel, one, lim, fbody, fsome, inner, c1, c2, fiter = r[:10]
+            verdict = dict(zip(m['els'], r[10:]))
             problems = []
             odd = [v for v in verdict.values() if v[0] != 'ok' or v[1] not in (True, False)]
             if odd:
@@ -108,6 +109,9 @@ def api_consistency_table(ctx, rule, deep=False):
             want = [c for c in m['some'] if c in acc]
             if fsome != ('ok', want):
                 problems.append(f'filter(list) = {show(fsome[1]) if fsome[0] == "ok" else fsome}, the members match() accepts are {show(want)}')
+            if fiter != fsome:
+                problems.append(f'filter(iterator over the same members) = {show(fiter[1]) if fiter[0] == "ok" else fiter}, filter(list) = '
+                                f'{show(fsome[1]) if fsome[0] == "ok" else fsome}: a one-shot iterable must be filtered like a list')
             want = [c for c in m['below'] if c in acc]
             if inner != ('ok', want):
                 problems.append(f'select() from <div id=d1> = {show(inner[1]) if inner[0] == "ok" else inner}, its descendants that match() accepts are {show(want)}')
@@ -223,6 +227,12 @@ def escape_selects_table(ctx, rule):
             spec_kids.append(('i', {'id': v, 'class': cls, 'data': v, '_label': f'e{i}'}, []))
         # duplicates: the same id twice, and a look-alike
         spec_kids.append(('i', {'id': 'a', 'class': ['a'] if kind == 'html' else 'a', 'data': 'a', '_label': 'dup'}, []))
+        # a class attribute assigned as ONE string through the bs4 API (also in an HTML tree), and look-alikes: a class that merely
+        # contains the needle, and the pieces of a needle with a space as consecutive classes
+        spec_kids.append(('i', {'id': 'str', 'class': 'a  z\tq', 'data': 'str', '_label': 'strcls'}, []))
+        spec_kids.append(('i', {'id': 'decoy', 'class': 'xax ba ab' if kind != 'html' else ['xax', 'ba', 'ab'], 'data': 'decoy', '_label': 'decoy'}, []))
+        spec_kids.append(('i', {'id': 'decoy2', 'class': 'xax ba' , 'data': 'decoy2', '_label': 'decoy2'}, []))
+        spec_kids.append(('i', {'id': 'pieces', 'class': ['a', 'b'] if kind == 'html' else 'a b', 'data': 'pieces', '_label': 'pieces'}, []))
         doc, order, L = make_doc([('r', {'_label': 'root'}, spec_kids)], kind)
         idx = {id(n_): i for i, n_ in enumerate(order)}
         els = [e for e in elements(order) if e.get('name') == 'i']
@@ -326,6 +336,24 @@ def case_rules_table(ctx, rule):
                       key=f'case|embedded|{fn}|{s}|{label(target)}')
         if g != want and bad is None:
             bad = (f'xml document with embedded XHTML-namespaced elements, {fn}() from {label(target)}', s, g, want)
+    # namespace-aware HTML trees (html5lib) keep the case of foreign element names (foreignObject); selectors still match them
+    # regardless of ASCII case, as for every element of an HTML document - XML flavours compare exactly
+    SVGN = 'http://www.w3.org/2000/svg'
+    fspec = [('html', {'_label': 'root'}, [('body', {}, [('svg', {'_ns': SVGN, '_label': 'svg'}, [('foreignObject', {'_ns': SVGN, '_label': 'fo'}, []),
+                                                                                          ('linearGradient', {'_ns': SVGN, '_label': 'lg'}, [])]),
+                                                       ('DIV', {'_label': 'div'}, [])])])]
+    for kind in ('html5', 'xhtml'):
+        doc, order, L = make_doc(fspec, kind)
+        fold = kind == 'html5'
+        for s_, want in (('svg', ['<svg>']), ('SVG', ['<svg>'] if fold else []), ('foreignObject', ['<fo>']), ('foreignobject', ['<fo>'] if fold else []),
+                         ('FOREIGNOBJECT', ['<fo>'] if fold else []), ('s|LinearGradient', ['<lg>'] if fold else []), ('s|linearGradient', ['<lg>']),
+                         ('*|SVG > *', ['<fo>', '<lg>'] if fold else []), ('div', ['<div>'] if fold else []), ('DIV', ['<div>'])):
+            st, got = api(ctx, 'select', s_, doc, namespaces={'s': SVGN})
+            n += 1
+            g = [label(x) for x in got] if st == 'ok' else f'raises {got}'
+            rule.instance({'document': kind + ' with SVG elements', 'selector': s_, 'selected': g, 'expected': want}, key=f'case|foreign|{kind}|{s_}')
+            if g != want and bad is None:
+                bad = (kind + ' tree with SVG elements (names stored as foreignObject, linearGradient)', s_, g, want)
     rule.instance({'api_calls': n}, key='case-rules')
     rule.obligation(bad is None)
     if bad is not None:
@@ -495,11 +523,14 @@ def _rows_table(ctx, rule, title, cases, where, why):
     """cases: [(document description, kind, spec, namespaces, [(selector, expected labels), ...])] - select() from the document."""
     from ..e2e import batch_api
     docs, reqs, meta = {}, [], []
-    for i, (what, kind, spec, ns, rows) in enumerate(cases):
+    for i, case in enumerate(cases):
+        what, kind, spec, ns, rows = case[:5]
+        custom = case[5] if len(case) > 5 else None
         doc, order, L = make_doc(spec, kind)
         docs[i] = (doc, order)
         for s, want in rows:
-            reqs.append((i, 'select', s, None, (('namespaces', ns),) if ns is not None else ()))
+            kw = ((('namespaces', ns),) if ns is not None else ()) + ((('custom', custom),) if custom is not None else ())
+            reqs.append((i, 'select', s, None, kw))
             meta.append((i, what, s, want))
     bad = None
     for (i, what, s, want), got in zip(meta, batch_api(ctx, docs, reqs)):
@@ -558,8 +589,19 @@ def namespace_table(ctx, rule):
     m2 = {'': X, 'q': Y}
     rows2 = [('e', ['ex', 'ex2']), ('*', ['ex', 'fx', 'ex2']), ('*|e', ['ex', 'ey', 'en', 'ex2']), ('|e', ['en']), ('q|e', ['ey']), ('[a]', ['ex']),
              (':not(e)', ['fx']), ('*|*:not(e)', ['root', 'ey', 'en', 'fx']), ('f e', ['ex2']), (':is(e)', ['ex', 'ex2'])]
+    rows3 = [(':--px', ['ex', 'ex2']), ('root > :--px', ['ex']), (':--qa', ['ey', 'ex2']), (':--both', ['ex2']), ('f :--px', ['ex2']), (':not(:--px)', ['root', 'ey', 'en', 'fx'])]
+    custom = {':--px': 'p|e', ':--qa': '[q|a]', ':--both': ':--px:--qa'}
+    XH = 'http://www.w3.org/1999/xhtml'
+    T4 = [('html', {'_label': 'root'}, [('body', {'_label': 'body'}, [('e', {'_label': 'hx'}, []), ('e', {'_ns': None, '_label': 'bare'}, [('e', {'_ns': None, '_label': 'bare2'}, [])]),
+                                                                       ('e', {'_ns': '', '_label': 'empty'}, [])])])]
+    rows4 = [('|e', ['bare', 'bare2', 'empty']), ('h|e', ['hx']), ('e', ['hx', 'bare', 'bare2', 'empty']), ('*|e', ['hx', 'bare', 'bare2', 'empty']), ('h|*', ['root', 'body', 'hx']),
+             ('|*', ['bare', 'bare2', 'empty'])]
+    rows5 = [('e', ['hx']), ('*|e', ['hx', 'bare', 'bare2', 'empty']), ('|e', ['bare', 'bare2', 'empty'])]
     _rows_table(ctx, rule, 'namespace', [('mixed namespaces, map {p: urn:x, q: urn:y}', 'xml', T, m1, rows1),
-                                         ('mixed namespaces, default namespace urn:x', 'xml', T, m2, rows2)],
+                                         ('mixed namespaces, default namespace urn:x', 'xml', T, m2, rows2),
+                                         ('mixed namespaces, prefixes used inside custom selectors', 'xml', T, m1, rows3, custom),
+                                         ('XHTML document with elements outside any namespace, map {h: XHTML}', 'xhtml', T4, {'h': XH}, rows4),
+                                         ('XHTML document with elements outside any namespace, default namespace XHTML', 'xhtml', T4, {'': XH}, rows5)],
                 'soupsieve/css_match.py (match_namespace / match_attribute_name)',
                 'comparing the namespace URI of the element / attribute with the URI the prefix is mapped to')
 
@@ -572,6 +614,11 @@ def lang_pipeline_table(ctx, rule):
     TX = [('html', {'lang': 'en', '_label': 'root'}, [('body', {}, [
         ('div', {'LANG': 'fr', '_label': 'shout'}, [('p', {'_label': 'p1'}, [])]),
         ('div', {'lang': 'de-CH', '_label': 'de'}, [('p', {'_label': 'p2'}, []), ('p', {'lang': '', '_label': 'p3'}, [('b', {'_label': 'b'}, [])])])])])]
+    TS = [('html', {'lang': 'en', '_label': 'root'}, [('body', {}, [
+        ('section', {'lang': 'de', '_label': 's1'}, [('ul', {'_label': 'u1'}, [('li', {'_label': 'l1'}, ['x'])])]),
+        ('section', {'lang': 'fr', '_label': 's2'}, [('ul', {'_label': 'u2'}, [('li', {'_label': 'l2'}, ['x'])])]),
+        ('section', {'_label': 's3'}, [('ul', {'_label': 'u3'}, [('li', {'_label': 'l3'}, ['x'])])])])])]
+    rows_s = [('li:lang(de)', ['l1']), ('li:lang(fr)', ['l2']), ('li:lang(en)', ['l3']), ('ul:lang(fr)', ['u2']), (':lang(de)', ['s1', 'u1', 'l1'])]
     rows_x = [('p:lang(en)', ['p1']), ('p:lang(fr)', []), ('p:lang(de)', ['p2']), ('p:lang("*-ch")', ['p2']), ('p:lang("")', ['p3']), ('b:lang("")', ['b']),
               ('b:lang(de)', []), ('div:lang(en)', ['shout']), (':lang("de-*")', ['de', 'p2'])]
     TM = [('doc', {NSKey('xml:lang', XMLNS, 'lang'): 'de', 'lang': 'en', '_label': 'root'}, [('a', {'_label': 'a'}, []), ('b', {'lang': 'fr', '_label': 'b'}, [])])]
@@ -580,7 +627,9 @@ def lang_pipeline_table(ctx, rule):
                                         ('body', {}, [('p', {'_label': 'p'}, []), ('p', {'lang': 'pt', '_label': 'q'}, [])])])]
     rows_h = [('p:lang(es)', ['p']), ('p:lang(pt)', ['q']), ('body:lang(es)', ['body']), ('p:lang(en)', [])]
     _rows_table(ctx, rule, 'lang', [('XHTML (XML parser), LANG next to lang', 'xhtml', TX, None, rows_x), ('XML, xml:lang next to lang', 'xml', TM, None, rows_m),
-                                    ('HTML, content-language pragma', 'html', TH, None, rows_h)],
+                                    ('HTML, content-language pragma', 'html', TH, None, rows_h),
+                                    ('HTML, look-alike subtrees under different languages', 'html', TS, None, rows_s),
+                                    ('XHTML, look-alike subtrees under different languages', 'xhtml', TS, None, rows_s)],
                 'soupsieve/css_match.py (match_lang / extended_language_filter)',
                 'the nearest lang attribute (xml:lang in XML that is not XHTML; attribute names are case-sensitive in XML trees), else the '
                 'content-language pragma, filtered by RFC 4647')
@@ -619,8 +668,11 @@ def state_pipeline_table(ctx, rule):
                 ('p', {'_label': 'ip'}, [HE])])])]),
             ('input', {'type': 'submit', '_label': 'osub'}, [])]),
         ('div', {'dir': 'auto', '_label': 'auto'}, [('iframe', {}, [('html', {}, [('body', {}, [HE])])]), 'latin']),
+        ('input', {'type': 'radio', 'name': 'free', '_label': 'ofree1'}, []), ('input', {'type': 'radio', 'name': 'free', '_label': 'ofree2'}, []),
+        ('iframe', {}, [('html', {}, [('body', {}, [('input', {'type': 'radio', 'name': 'free', 'checked': '', '_label': 'ifree1'}, []),
+                                                    ('input', {'type': 'radio', 'name': 'free', '_label': 'ifree2'}, [])])])]),
         ('p', {'_label': 'op'}, [])])])]
-    rows_i = [(':default', ['irad', 'osub']), (':indeterminate', ['orad']), ('p:dir(rtl)', ['op']), ('p:dir(ltr)', ['ip']), ('html:dir(ltr)', ['root', 'iroot', 'html']),
+    rows_i = [(':default', ['irad', 'osub', 'ifree1']), (':indeterminate', ['orad', 'ofree1', 'ofree2']), ('input[name=free]:not(:indeterminate)', ['ifree1', 'ifree2']), ('p:dir(rtl)', ['op']), ('p:dir(ltr)', ['ip']), ('html:dir(ltr)', ['root', 'iroot', 'html', 'html']),
               ('div:dir(ltr)', ['auto']), ('p:lang(fr)', ['op']), ('html:lang(fr)', ['root']), ('form input:checked', ['irad']), ('form :root', ['iroot'])]
     _rows_table(ctx, rule, 'state', [('dir=auto with invalid dir values below', 'html', TD, None, rows_d), ('nested forms and radio groups', 'html', TF, None, rows_f),
                                      ('state across an iframe boundary', 'html', TI, None, rows_i)],
@@ -641,7 +693,8 @@ HOSTILE_TREE = [('#doctype', 'html'), ('#comment', 'x'), ('html', {'_label': 'ro
         ('input', {'type': 'number', 'min': '1e', 'max': '', 'value': '5..'}, []), ('input', {'max': '5'}, []), ('input', {'type': '', 'min': '1'}, []),
         ('input', {'type': 'date', 'min': 'x', 'max': '9999-99-99', 'value': '2020-13-45'}, []), ('input', {'type': 'date', 'min': '10000-01-01', 'value': '0000-00-00'}, []),
         ('input', {'type': 'time', 'min': '23:00', 'max': '01:00', 'value': '24:61'}, []), ('input', {'type': 'week', 'min': '0999-W01', 'max': '2020-W54', 'value': '0000-W00'}, []),
-        ('input', {'type': 'month', 'min': '0000-00', 'value': '99999-12'}, []), ('input', {'type': 'datetime-local', 'min': '2020-02-30T25:00', 'value': 'T'}, []),
+        ('input', {'type': 'month', 'min': '0000-00', 'value': '99999-12'}, []), ('input', {'type': 'datetime-local', 'min': '2020-02-30T25:00', 'value': 'T'}, []), ('input', {'type': 'datetime-local', 'max': '2020-13-01T00:00', 'min': '2020-99-99T99:99', 'value': '2020-00-00T00:00'}, []),
+        ('input', {'type': 'date', 'min': '2020-13-01', 'max': '2020-00-10', 'value': '2020-99-01'}, []), ('input', {'type': 'month', 'min': '2020-13', 'value': '2020-00'}, []),
         ('input', {'type': 'range', 'min': '-', 'max': '+', 'value': '.'}, []),
         ('input', {'type': 'text', 'dir': 'auto', 'value': '', 'placeholder': ''}, []), ('input', {'type': 'text', 'dir': 'AUTO', 'value': '\u05d0'}, []),
         ('input', {}, []), ('textarea', {'dir': 'auto', 'placeholder': 'x'}, [('#comment', 'c')]), ('bdi', {}, []), ('bdi', {'dir': 'bogus'}, [('#cdata', 'c')]),
@@ -703,3 +756,83 @@ def no_raise_table(ctx, rule, deep=False):
         rule.violation(f'{fn}() raises on `{s}`', 'soupsieve/css_match.py',
                        f'{fn}({s!r}, ...) on the {kind} flavour of the tree of unusual content{" (target: an element without a parent)" if det else ""} '
                        f'raises {exc}: matching a valid selector against any bs4 tree must answer, never raise')
+
+
+SVG_NS = 'http://www.w3.org/2000/svg'
+XHTML = 'http://www.w3.org/1999/xhtml'
+FOREIGN_TREE = [('html', {'_label': 'root'}, [('body', {}, [
+    ('div', {'_label': 'div', 'class': ['k']}, [('p', {'_label': 'p1'}, ['t']), ('input', {'type': 'checkbox', 'checked': '', '_label': 'box1'}, [])]),
+    ('svg', {'_ns': SVG_NS, '_label': 'svg'}, [
+        ('circle', {'_ns': SVG_NS, '_label': 'circle', 'class': ['k']}, []),
+        ('a', {'_ns': SVG_NS, 'href': 'x', '_label': 'sa'}, []),
+        ('foreignObject', {'_ns': SVG_NS, '_label': 'fo'}, [
+            ('p', {'_label': 'p2', 'class': ['k']}, [('a', {'href': 'y', '_label': 'ha'}, [])]),
+            ('input', {'type': 'checkbox', 'checked': '', '_label': 'box2'}, []), ('input', {'type': 'text', 'required': '', '_label': 'txt'}, [])])]),
+    ('math', {'_ns': 'http://www.w3.org/1998/Math/MathML', '_label': 'math'}, [('mi', {'_ns': 'http://www.w3.org/1998/Math/MathML', '_label': 'mi'}, ['x'])])])])]
+
+
+def scope_independence_table(ctx, rule):
+    """What an element is does not depend on where the call starts: select(S, E) is select(S, document) restricted to the
+    descendants of E, and match(S, x) agrees, for call targets inside and outside foreign-namespace subtrees (SVG, MathML) of
+    namespace-aware HTML / XHTML trees and selectors that use namespaces or HTML-only pseudo-classes (none uses :scope)."""
+    from ..e2e import batch_api
+    sels = ['svg|circle', 'circle', 'h|p', 'p', '*|p', ':checked', 'input:required', '*|*', 'svg|* > *', ':link', '[type=checkbox]', '.k', 'svg|*.k', 'h|*:not(h|p)',
+            ':is(svg|a, h|a)', 'a', ':root', 'm|mi', '|p', 'svg|foreignObject > p', ':has(> h|p)']
+    ns = (('namespaces', {'svg': SVG_NS, 'h': XHTML, 'm': 'http://www.w3.org/1998/Math/MathML'}),)
+    docs, meta, reqs, keys = {}, {}, [], []
+    for kind in ('html5', 'xhtml'):
+        doc, order, L = make_doc(FOREIGN_TREE, kind)
+        docs[kind] = (doc, order)
+        idx = {id(n_): i for i, n_ in enumerate(order)}
+        scopes = {nm: idx[id(L[nm])] for nm in ('div', 'svg', 'fo', 'p2', 'math', 'root')}
+        below = {}
+        for nm, i in scopes.items():
+            acc = []
+
+            def walk(x):
+                for c in x.get('contents'):
+                    if not isinstance(c, TextNode):
+                        acc.append(idx[id(c)])
+                        walk(c)
+            walk(order[i])
+            below[nm] = acc
+        meta[kind] = (order, scopes, below, [idx[id(e)] for e in elements(order)])
+        for s in sels:
+            reqs.append((kind, 'select', s, None, ns))
+            keys.append((kind, s, 'doc'))
+            for nm, i in scopes.items():
+                reqs.append((kind, 'select', s, i, ns))
+                keys.append((kind, s, nm))
+            for nm in ('circle', 'p2', 'box2', 'mi', 'ha'):
+                reqs.append((kind, 'match', s, idx[id(L[nm])], ns))
+                keys.append((kind, s, 'match:' + nm))
+        meta[kind] += ({nm: idx[id(L[nm])] for nm in ('circle', 'p2', 'box2', 'mi', 'ha')},)
+    res = dict(zip(keys, batch_api(ctx, docs, reqs)))
+    bad = None
+    for kind in docs:
+        order, scopes, below, els, singles = meta[kind]
+        show = lambda ixs: [label(order[i]) for i in ixs]      # noqa: E731
+        for s in sels:
+            full = res[(kind, s, 'doc')]
+            if full[0] != 'ok':
+                if bad is None:
+                    bad = (kind, s, f'select from the document raises {full[1]}')
+                continue
+            for nm in scopes:
+                got = res[(kind, s, nm)]
+                want = [i for i in below[nm] if i in full[1]]
+                if got != ('ok', want) and bad is None:
+                    bad = (kind, s, f'select() from <{nm}> gives {show(got[1]) if got[0] == "ok" else "raises " + str(got[1])}, but the descendants of <{nm}> among '
+                                    f'the elements selected from the document are {show(want)}')
+            for nm, i in singles.items():
+                got = res[(kind, s, 'match:' + nm)]
+                if got != ('ok', i in full[1]) and bad is None:
+                    bad = (kind, s, f'match() on <{nm}> gives {got[1]}, but select() from the document {"selects" if i in full[1] else "does not select"} it')
+            rule.instance({'document': kind, 'selector': s, 'selected_from_document': show(full[1])}, key=f'scope|{kind}|{s}', sample_cap=6)
+    rule.instance({'api_calls': len(reqs)}, key='scope-calls')
+    rule.obligation(bad is None)
+    if bad is not None:
+        kind, s, problem = bad
+        rule.violation(f'scope independence `{s}` ({kind})', 'soupsieve/css_match.py (CSSMatch.__init__ / supports_namespaces)',
+                       f'{s!r} on the {kind} tree with SVG and MathML subtrees: {problem}. Document type and namespace support are facts of the '
+                       f'document, not of the element a call starts from')
